@@ -82,6 +82,7 @@ pub fn dict(shape: Shape, key: &str) -> &'static [&'static [u8]] {
             b":", b":(", b")", b":!", b":^", b":/", b":(top)", b":(literal)", b":(glob)", b":(icase)", b":(exclude)", b":(attr:", b":(attr:a b=c -d !e)",
             b",", b"\\", b"=", b"*", b"**", b"?", b"[", b"../", b"./", b"/", b"//", b":(prefix:", b":(top,top", b"\0",
         ],
+        "date-raw" => &[b" ", b"+", b"-", b"+0000", b"-0000", b"+9999", b"9", b"0", b"99999999999999999999", b"-", b"  "],
         "date" => &[
             b" ", b"+", b"-", b"+0000", b"-0700", b"+9999", b"-99999", b":", b"T", b"Z", b"ago", b"weeks", b"seconds", b"days", b"hour", b"now", b"Thu, ",
             b"Jan", b"1970", b"2038-01-19", b"00:00:00", b"24:60:61", b"\xc3\xa9", b"@",
